@@ -15,7 +15,7 @@ KIND_PROPS = {
     "report.we": ["C06", "C12"], "potential": ["C06"],
     "network": ["C07"],
     "pagelinks": ["C08"], "weout": ["C08"], "wein": ["C08"],
-    "paginate": ["C09"], "paginatelinks": ["C10"],
+    "paginate": ["C09"], "paginatelinks": ["C10"], "token": ["C09", "C10"],
     "parents": ["C13"], "children": ["C13"],
     "expand": ["C17"], "variations": ["C17"],
     "metrics": ["C19"], "hash": ["C19"],
@@ -187,7 +187,7 @@ class Judge(object):
         self.judged += 1
         if w[0] == "token":
             if not ans.startswith("ok ") or ans.split(" ")[2:] != [w[1], w[2]]:
-                self.add(idx, line, "paginate", "token does not round-trip", "… %s %s" % (w[1], w[2]), ans)
+                self.add(idx, line, "token", "token does not round-trip through its text encoding", "… %s %s" % (w[1], w[2]), ans)
         elif w[0] == "chunks":
             n, x = int(w[1]), unx(w[2])
             exp = [x[i:i + n] for i in range(0, len(x), n)] or [x]
